@@ -303,13 +303,16 @@ def softDeleteModify (unscoped : Bool) (filter : Atom) (s : WhereState) : WhereS
     let es1 := if es.any Ex.isSingleOr then (mkAnd es).toList else es
     { exprs := some (es1 ++ [.atom filter]), softEnabled := true }
 
-/-- `checkMissingWhereConditions`: true = `ErrMissingWhereClause` is added -/
-def missingWhere (allowGlobal : Bool) (s : WhereState) : Bool :=
+/-- `checkMissingWhereConditions`: true = `ErrMissingWhereClause` is added.
+    `countsExprs` is the regenerated fact `Gen.guardRejectsEmptyWhere` (extract/gen_c09_fix.go): without the marker the
+    guard written before the repair of F26 tests only the PRESENCE of the entry (`countsExprs = false`); the repaired
+    guard has `else if isWhere { withCondition = len(whereClause.Exprs) > 0 }` (`countsExprs = true`) -/
+def missingWhere (countsExprs : Bool) (allowGlobal : Bool) (s : WhereState) : Bool :=
   if allowGlobal then false
   else
     match s.exprs with
     | none => true
-    | some es => if s.softEnabled then !(es.length > 1) else false
+    | some es => if s.softEnabled then !(es.length > 1) else (countsExprs && es.isEmpty)
 
 /-- the statement's WHERE state when the guard runs: the chain's conditions, a primary-key condition when the
     model value carries one (`ConvertToAssignments` / `Delete` / the soft-delete delete clause add it as one more
@@ -431,8 +434,8 @@ def stmtStep (cfg : StmtCfg) (s : StmtState) : StmtOp → StmtState
 
 def stmtRun (cfg : StmtCfg) (s : StmtState) (ops : List StmtOp) : StmtState := ops.foldl (stmtStep cfg) s
 
-/-- does the guard reject write finisher `k` issued in state `s`? -/
-def finRejected (cfg : StmtCfg) (s : StmtState) (k : FinKind) (valueKey : List Atom) (same : Bool) : Bool :=
-  k.isWrite && missingWhere cfg.allowGlobal (finWhere cfg s k valueKey same)
+/-- does the guard reject write finisher `k` issued in state `s`?  (`countsExprs`: see `missingWhere`) -/
+def finRejected (countsExprs : Bool) (cfg : StmtCfg) (s : StmtState) (k : FinKind) (valueKey : List Atom) (same : Bool) : Bool :=
+  k.isWrite && missingWhere countsExprs cfg.allowGlobal (finWhere cfg s k valueKey same)
 
 end Gorm
